@@ -350,10 +350,15 @@ def float_checks(seed, quick):
             F = np.geomspace(8.0, 900.0, [40, 75, 23][it % 3])
         P = np.abs(rng.randn(F.size, 2)) + 0.1
         FLi, FUi = edges(F)
-        for mode in ("linear-out", "log-out", "n_oct"):
+        for mode in ("linear-out", "log-out", "n_oct", "single-band"):
             for ext in (False, True):
                 kw = dict(extendends=ext)
-                if mode == "linear-out":
+                if mode == "single-band":
+                    # two requested centres of which only the first band overlaps the data, overhanging its lower edge (and on odd iterations its upper edge too)
+                    c0 = F[0] * 1.3 if it % 2 == 0 else 0.5 * (F[0] + F[-1])
+                    fo = np.array([c0, c0 + 2.2 * (c0 - F[0]) + (F[-1] - F[0]) * (0.2 if it % 2 == 0 else 3.0)])
+                    kw["freq"] = fo
+                elif mode == "linear-out":
                     fo = np.arange(F[0] + 3.3, F[-1] - 2.0, 7.3)
                     kw["freq"] = fo
                 elif mode == "log-out":
@@ -476,9 +481,18 @@ def float_checks(seed, quick):
     # 4. Lanczos resampling of a band-limited signal
     tt = np.arange(400) / 400.0
     sig = np.sin(2 * np.pi * 7 * tt) + 0.5 * np.cos(2 * np.pi * 19 * tt + 0.3)
+    sig_i = np.round(sig * 40).astype(np.int64) + 3           # integer-typed samples with a non-integer mean
     for p, q, pts_ in ((3, 1, 10), (1, 2, 10), (3, 7, 10), (10, 4, 10), (4, 3, 10), (5, 3, 10), (7, 4, 10), (5, 4, 10), (3, 2, 7), (5, 2, 9), (3, 2, 10)):
         r, tn = dsp.resample(sig, p, q, t=tt, pts=pts_)
         ev += 1
+        rf_ = dsp.resample(sig_i.astype(float), p, q, pts=pts_)
+        for what_, arg_ in (("an int64 ndarray", sig_i), ("an int32 ndarray", sig_i.astype(np.int32)), ("a list of ints", [int(x_) for x_ in sig_i]),
+                            ("a float32 ndarray", sig_i.astype(np.float32)), ("a 2-D int array (axis 0)", np.column_stack((sig_i, -sig_i)))):
+            ri_ = dsp.resample(arg_, p, q, pts=pts_) if "2-D" not in what_ else dsp.resample(arg_, p, q, pts=pts_, axis=0)[:, 0]
+            ev += 1
+            if np.shape(ri_) != np.shape(rf_) or not np.allclose(np.asarray(ri_, float), rf_, rtol=1e-6 if "float32" in what_ else 1e-12, atol=(1e-3 if "float32" in what_ else 1e-9)):
+                return ev, dict(what="dsp.resample of %s differs from the resampling of the same numbers given as float64" % what_, p=p, q=q, pts=pts_,
+                                max_difference=float(abs(np.asarray(ri_, float) - rf_).max()) if np.shape(ri_) == np.shape(rf_) else None)
         if p > q:
             pp_, qq_ = p // math.gcd(p, q), q // math.gcd(p, q)
             kept = abs(r[::pp_][: len(sig[::qq_])] - sig[::qq_][: len(r[::pp_])]).max()
